@@ -162,6 +162,7 @@ enum {
   X(void, jv_apair_set, (int view, void* arr, size_t i, const void* g1a, const void* g2a)) \
   X(void, jv_ppair_set, (int view, void* arr, size_t i, const void* g1a, const void* g2p)) \
   X(size_t, jv_pair_size, (int view, int prepared)) \
+  X(size_t, jv_g2p_size, (int view)) \
   X(void, jv_pair_init, (int view, void* arr, size_t n, int prepared)) \
   /* ---- bls12_381 API, both views ---- */ \
   X(void, jv_zp_random, (int view, void* out, jv_rand_fn rnd)) \
